@@ -131,8 +131,8 @@ m("c09-po-uses-pi", ["C09"], C, "            \"po\": pi - pl,", "            \"p
 
 # ---- C10 -------------------------------------------------------------------------------------
 m("c10-wrong-clamp-branch", ["C10"], C,
-  "            if y < self._ymin:\n                return self._intp([self._xmin], [self._ymin])[0]\n            if y > self._ymax:\n                return self._intp([self._xmin], [self._ymax])[0]\n            return self._intp([self._xmin], [y])[0]",
-  "            if y < self._ymin:\n                return self._intp([self._xmin], [self._ymax])[0]\n            if y > self._ymax:\n                return self._intp([self._xmin], [self._ymax])[0]\n            return self._intp([self._xmin], [y])[0]")
+  "        yc = min(max(y, self._ymin), self._ymax)",
+  "        yc = self._ymax if y < self._ymin else min(y, self._ymax)")
 m("c10-1d-abs-removed", ["C10"], C, "        return np.interp(np.abs(x), self._x, self._fx)", "        return np.interp(x * 1.0001, self._x, self._fx)")
 m("c10-vloss-table-column-major", ["C10"], C,
   "                    vd = np.asarray(vdrop[\"vdrop\"]).reshape(1, -1)[0].tolist()\n                self._ipr = _Interp2d(cur, volt, vd)\n            self._params[\"vdrop\"] = vdrop\n        else:\n            self._params[\"vdrop\"] = abs(vdrop)\n            self._ipr = _Interp0d(abs(vdrop))\n        self._limits = _check_limits(limits)",
@@ -141,7 +141,7 @@ m("c10-pswitch-xy-swapped", ["C10"], C,
   "                    igi = np.asarray(ig[\"ig\"]).reshape(1, -1)[0].tolist()\n                self._ipr = _Interp2d(cur, volt, igi)\n        else:\n            self._ipr = _Interp0d(abs(ig))\n        self._params[\"ig\"] = ig\n        self._params[\"iis\"] = abs(iis)\n        self._params[\"rt\"] = abs(rt)\n        self._limits = _check_limits(limits)\n\n    def _solv_inp_curr(self, vi, vo, io, phase, phase_conf=[], pstate={}):\n        \"\"\"Calculate PSwitch",
   "                    igi = np.asarray(ig[\"ig\"]).reshape(1, -1)[0].tolist()\n                self._ipr = _Interp2d(volt, cur, igi)\n        else:\n            self._ipr = _Interp0d(abs(ig))\n        self._params[\"ig\"] = ig\n        self._params[\"iis\"] = abs(iis)\n        self._params[\"rt\"] = abs(rt)\n        self._limits = _check_limits(limits)\n\n    def _solv_inp_curr(self, vi, vo, io, phase, phase_conf=[], pstate={}):\n        \"\"\"Calculate PSwitch")
 m("c10-2d-right-edge-uses-ymax", ["C10"], C,
-  "            return self._intp([self._xmax], [y])[0]", "            return self._intp([self._xmax], [self._ymax])[0]")
+  "        xc = min(max(x, self._xmin), self._xmax)", "        xc = min(max(x, self._xmin), self._xmax)\n        if x > self._xmax:\n            y = self._ymax")
 
 # ---- C11 -------------------------------------------------------------------------------------
 m("c11-pswitch-abs-rs-dropped", ["C11"], C, "        self._params[\"rs\"] = abs(rs)\n        if isinstance(ig, dict):\n            _check_interp(ig, \"ig\")\n            if np.min(ig[\"ig\"]) < 0.0:\n                raise ValueError(\"ig values must be >= 0.0\")\n            if len(ig[\"vi\"]) == 1:\n                self._ipr = _Interp1d(ig[\"io\"], ig[\"ig\"][0])\n            else:\n                cur = []\n                volt = []\n                for v in ig[\"vi\"]:\n                    cur += ig[\"io\"]\n                    volt += len(ig[\"io\"]) * [v]\n                    igi = np.asarray(ig[\"ig\"]).reshape(1, -1)[0].tolist()\n                self._ipr = _Interp2d(cur, volt, igi)\n        else:\n            self._ipr = _Interp0d(abs(ig))\n        self._params[\"ig\"] = ig\n        self._params[\"iis\"] = abs(iis)\n        self._params[\"rt\"] = abs(rt)\n        self._limits = _check_limits(limits)\n\n    def _solv_inp_curr(self, vi, vo, io, phase, phase_conf=[], pstate={}):\n        \"\"\"Calculate PSwitch",
